@@ -36,7 +36,17 @@ package api
 // everything a Publish may change (it runs the core handlers synchronously); the message-processing chain uses the same
 // set, so it also lists what the discovery handlers change: the removal log and the (in-place) diff of a full notification
 //@ modset PUBLISH = evn, ev, dn, dh, dp, dsp, world, spine.Events.handlers, spawn, outmisc, ntn, nts, ntsrc, ntdst, ntcmd, nsn, nsdev, nsaddr, nscmd
-//@ modset DISCOVERY = ren, redev, readdr, cells(model.NodeManagementDetailedDiscoveryDataType), cells(model.NetworkManagementEntityDescriptionDataType), cells(model.NodeManagementDetailedDiscoveryEntityInformationType), cells(model.NodeManagementDetailedDiscoveryFeatureInformationType), cells(model.NetworkManagementStateChangeType), cells(model.EntityTypeType)
+// results of those removals, and the cascade that follows a removal (C06): reres[k] the entity the k-th removal returned;
+// casn cascade calls so far; caskind[k] 1 = RemoveSubscriptionsForEntity, 2 = RemoveBindingsForEntity, 3 = CleanRemoteEntityCaches;
+// casent[k] / casaddr[k] the entity / entity address handed to it; casat[k] the number of removals requested before it
+//@ ghost reres map[int]api.EntityRemoteInterface
+//@ ghost casn int
+//@ ghost caskind map[int]int
+//@ ghost casent map[int]api.EntityRemoteInterface
+//@ ghost casaddr map[int]*model.EntityAddressType
+//@ ghost casat map[int]int
+//@ modset CASCADE = reres, casn, caskind, casent, casaddr, casat
+//@ modset DISCOVERY = reres, casn, caskind, casent, casaddr, casat, ren, redev, readdr, cells(model.NodeManagementDetailedDiscoveryDataType), cells(model.NetworkManagementEntityDescriptionDataType), cells(model.NodeManagementDetailedDiscoveryEntityInformationType), cells(model.NodeManagementDetailedDiscoveryFeatureInformationType), cells(model.NetworkManagementStateChangeType), cells(model.EntityTypeType)
 
 // Assumed contracts of the api interfaces, used at interface call sites.
 // "pure": no side effect; the result is a function of the receiver, the arguments and the
@@ -172,7 +182,8 @@ package api
 //@ iface api.SubscriptionManagerInterface.RemoveSubscription
 //@   modifies @PUBLISH, world, held
 //@ iface api.SubscriptionManagerInterface.RemoveSubscriptionsForEntity
-//@   modifies @PUBLISH, world, held
+//@   ensures casn == old(casn) + 1 && caskind == store(old(caskind), old(casn), 1) && casent == store(old(casent), old(casn), remoteEntity) && casat == store(old(casat), old(casn), ren)
+//@   modifies @PUBLISH, world, held, casn, caskind, casent, casat
 //@ iface api.SubscriptionManagerInterface.Subscriptions
 //@   modifies held
 //@ iface api.BindingManagerInterface.AddBinding
@@ -180,7 +191,8 @@ package api
 //@ iface api.BindingManagerInterface.RemoveBinding
 //@   modifies @PUBLISH, world, held
 //@ iface api.BindingManagerInterface.RemoveBindingsForEntity
-//@   modifies @PUBLISH, world, held
+//@   ensures casn == old(casn) + 1 && caskind == store(old(caskind), old(casn), 2) && casent == store(old(casent), old(casn), remoteEntity) && casat == store(old(casat), old(casn), ren)
+//@   modifies @PUBLISH, world, held, casn, caskind, casent, casat
 //@ iface api.BindingManagerInterface.Bindings
 //@   modifies held
 //@ iface api.DeviceRemoteInterface.UpdateDevice
@@ -188,11 +200,12 @@ package api
 //@ iface api.DeviceRemoteInterface.AddEntityAndFeatures
 //@   modifies world, held
 //@ iface api.DeviceRemoteInterface.RemoveEntityByAddress
-//@   ensures ren == old(ren) + 1 && redev == store(old(redev), old(ren), self) && readdr == store(old(readdr), old(ren), addr)
-//@   modifies world, held, ren, redev, readdr
+//@   ensures ren == old(ren) + 1 && redev == store(old(redev), old(ren), self) && readdr == store(old(readdr), old(ren), addr) && reres == store(old(reres), old(ren), result)
+//@   modifies world, held, ren, redev, readdr, reres
 //@ iface api.DeviceRemoteInterface.CheckEntityInformation pure ensures[C05] accepted-is-addressed: result == nil ==> entity.Description != nil && entity.Description.EntityAddress != nil && len(entity.Description.EntityAddress.Entity) > 0
 //@ iface api.DeviceLocalInterface.CleanRemoteEntityCaches
-//@   modifies world, held
+//@   ensures casn == old(casn) + 1 && caskind == store(old(caskind), old(casn), 3) && casaddr == store(old(casaddr), old(casn), remoteAddress) && casat == store(old(casat), old(casn), ren)
+//@   modifies world, held, casn, caskind, casaddr, casat
 //@ iface api.DeviceLocalInterface.Information
 //@   modifies nothing
 //@ iface api.DeviceInterface.DestinationData
